@@ -244,7 +244,7 @@ func c06run(c *runner.Ctx) runner.Result {
 	nw := 4 + r.Intn(3)
 	syms := []string{"AAA", "BBB", "C-D.E_F", "sym with space", "ÜNI"}
 	for i := 1; i <= nw; i++ {
-		variable := r.P(1, 2)
+		variable := r.P(1, 2) && i > 2 // the first two requests are fixed-length: they share a slot (below)
 		ag := "F"
 		if variable {
 			ag = "V"
@@ -262,6 +262,11 @@ func c06run(c *runner.Ctx) runner.Result {
 			bw.Rows = append(bw.Rows, hist.Row{T: t, V: int64(i)*1000 + int64(k)})
 		}
 		st.Buckets = append(st.Buckets, bw)
+		if !variable {
+			// every fixed-length request also rewrites one shared slot (payload i*1000+900): after replay the
+			// slot must hold the value of the last applied transaction, i.e. replay follows commit order
+			st.Buckets = append(st.Buckets, hist.BucketWrite{Key: "SHR/1H/F", Rows: []hist.Row{{T: (yearEdge + 4*3600) * 1e9, V: int64(i)*1000 + c06sharedMark}}})
+		}
 		h.Threads = append(h.Threads[:0], append(threadsOrEmpty(h), st))
 	}
 	rec, err := record(h, filepath.Join(c.Scratch, "rec"))
@@ -276,8 +281,13 @@ func c06run(c *runner.Ctx) runner.Result {
 		return res
 	}
 	owner := map[int64]int{}
+	sharedOf := map[int64]int{} // payload written to the shared slot -> transaction
 	for i, t := range tgs {
 		for _, v := range t.vs {
+			if v%1000 == c06sharedMark {
+				sharedOf[v] = i
+				continue
+			}
 			owner[v] = i
 		}
 	}
@@ -350,12 +360,17 @@ func c06run(c *runner.Ctx) runner.Result {
 		res.Count("tg_mustnot", int64(len(mustnot)))
 		res.Count("tg_may", int64(len(may)))
 		count := map[int64]int{}
+		var sharedSeen []int64
 		for key, bd := range rr.Dump.Buckets {
 			if bd.Err != "" {
 				res.Violation(fmt.Sprintf("WAL %s: bucket %s unreadable after replay: %s", m.label, key, bd.Err), wit)
 				continue
 			}
 			for _, row := range bd.Rows {
+				if _, ok := sharedOf[row[2]]; ok && row[3] == hist.ColB(row[2]) {
+					sharedSeen = append(sharedSeen, row[2])
+					continue
+				}
 				count[row[2]]++
 				if _, ok := owner[row[2]]; !ok || row[3] != hist.ColB(row[2]) {
 					res.Violation(fmt.Sprintf("WAL %s: row A=%d B=%d in %s is in no transaction of the seed log (data from a damaged record)", m.label, row[2], row[3], key), wit)
@@ -390,6 +405,22 @@ func c06run(c *runner.Ctx) runner.Result {
 				res.Violation(fmt.Sprintf("WAL %s: transaction %d applied partially (%d rows present, %d missing)", m.label, i, x[0], x[1]), wit)
 			}
 		}
+		// commit order: the shared slot holds the value of the last transaction that was applied
+		lastApplied, lastV := -1, int64(0)
+		for v, i := range sharedOf {
+			if x := seenTG[i]; x[0] > 0 && x[1] == 0 && i > lastApplied {
+				lastApplied, lastV = i, v
+			}
+		}
+		if lastApplied >= 0 {
+			res.Count("shared_slot_checks", 1)
+			switch {
+			case len(sharedSeen) != 1:
+				res.Violation(fmt.Sprintf("WAL %s: the slot rewritten by every fixed-length transaction holds %d rows (%v) after replay, expected the one of transaction %d", m.label, len(sharedSeen), sharedSeen, lastApplied), wit)
+			case sharedSeen[0] != lastV:
+				res.Violation(fmt.Sprintf("WAL %s: the slot rewritten by every fixed-length transaction holds payload %d (transaction %d) after replay although the later transaction %d (payload %d) was applied too: replay did not follow commit order", m.label, sharedSeen[0], sharedOf[sharedSeen[0]], lastApplied, lastV), wit)
+			}
+		}
 	})
 	res.Evals = int64(len(muts))
 	res.Count("seed_transactions", int64(len(tgs)))
@@ -404,6 +435,8 @@ func c06run(c *runner.Ctx) runner.Result {
 	compactKnown(&res)
 	return res
 }
+
+const c06sharedMark = 900
 
 func threadsOrEmpty(h *hist.History) []hist.Step {
 	if len(h.Threads) == 0 {
